@@ -224,8 +224,21 @@ def scan_runs(ctx, L, table="_snd_buffer", unroll=1):
     from .common import contradictory
     loop = None
     host = L.job
+
+    def over_table(fnode, n):
+        if not isinstance(n, ast.For):
+            return False
+        if any(isinstance(x, ast.Attribute) and x.attr == table for x in ast.walk(n.iter)):
+            return True
+        # `keys = <expression over the table>` ... `for k in keys:`
+        if isinstance(n.iter, ast.Name):
+            for a in ast.walk(fnode):
+                if isinstance(a, ast.Assign) and any(isinstance(t, ast.Name) and t.id == n.iter.id for t in a.targets) and \
+                        any(isinstance(x, ast.Attribute) and x.attr == table for x in ast.walk(a.value)) and a.lineno < n.lineno:
+                    return True
+        return False
     for n in ast.walk(L.job.node):
-        if isinstance(n, ast.For) and any(isinstance(x, ast.Attribute) and x.attr == table for x in ast.walk(n.iter)):
+        if over_table(L.job.node, n):
             loop = n
             break
     if loop is None:
